@@ -193,3 +193,70 @@ V("C04", "twin-keyword-args", TP, "                r = out.add_residue(residue.n
   "                r = out.add_residue(name=residue.name, chain=c, resSeq=out_resSeq, segment_id=residue.segment_id)", None)
 V("C04", "twin-local-alias", TP, "            c = out.add_chain(chain.chain_id)\n            for residue in chain.residues:\n                if keep_resSeq:",
   "            cid = chain.chain_id\n            c = out.add_chain(cid)\n            for residue in chain.residues:\n                if keep_resSeq:", None)
+
+# ---------------------------------------------------------------- C19
+V("C19", "xtc-atomcount-check-after-write", "mdtraj/formats/xtc/xtc.pyx",
+  """        prec = 1000.0 * np.ones(n_frames, dtype=np.float32)
+        self._write(xyz, time, step, box, prec)""",
+  """        prec = 1000.0 * np.ones(n_frames, dtype=np.float32)
+        self._write(xyz, time, step, box, prec)
+        if self.with_unitcell and (box is None):
+            raise ValueError("unitcell information missing")""", "C19-R1", "XTCTrajectoryFile.write")
+V("C19", "dcd-drops-unitcell-check", "mdtraj/formats/dcd/dcd.pyx",
+  """            if cell_lengths is None and self.with_unitcell:
+                raise ValueError("The file that you're saving to expects each frame "
+                    "to contain unitcell information, but you did not supply it.")
+            if cell_lengths is not None and not self.with_unitcell:
+                raise ValueError("The file that you're saving to was created without "
+                    "unitcell information.")
+""", "", "C19-R2", "DCDTrajectoryFile.write")
+V("C19", "xtc-drops-atomcount-check", "mdtraj/formats/xtc/xtc.pyx",
+  """            if not self.n_atoms == xyz.shape[1]:
+                raise ValueError("This file has %d atoms, but you're now "
+                    "trying to write %d atoms" % (self.n_atoms, xyz.shape[1]))
+""", "", "C19-R2", "XTCTrajectoryFile.write")
+V("C19", "xtc-counter-before-loop", "mdtraj/formats/xtc/xtc.pyx",
+  """        assert n_frames == len(box) == len(step) == len(time) == len(prec)
+        for i in range(n_frames):""", """        assert n_frames == len(box) == len(step) == len(time) == len(prec)
+        self.frame_counter += n_frames
+        for i in range(n_frames):""", "C19-R4", "XTCTrajectoryFile._write")
+V("C19", "pdb-header-guard-removed", "mdtraj/formats/pdb/pdbfile.py",
+  """        if not self._header_written:
+            self._write_header(unitcell_lengths, unitcell_angles)
+            self._header_written = True""", """        self._write_header(unitcell_lengths, unitcell_angles)
+        self._header_written = True""", "C19-R5", "PDBTrajectoryFile.write")
+V("C19", "nc-init-flag-never-cleared", "mdtraj/formats/netcdf.py",
+  """                set_cell=(cell_lengths is not None and cell_angles is not None),
+            )
+            self._needs_initialization = False""", """                set_cell=(cell_lengths is not None and cell_angles is not None),
+            )""", "C19-R5", "NetCDFTrajectoryFile.write")
+V("C19", "hdf5-flush-removed", "mdtraj/formats/hdf5.py", "        self._frame_index += n_frames\n        self.flush()", "        self._frame_index += n_frames",
+  "C19-R6", "HDF5TrajectoryFile.write")
+V("C19", "hdf5-flush-only-every-10", "mdtraj/formats/hdf5.py", "        self._frame_index += n_frames\n        self.flush()",
+  "        self._frame_index += n_frames\n        if self._frame_index % 10 == 0:\n            self.flush()", "C19-R6", "HDF5TrajectoryFile.write")
+V("C19", "nc-flush-noop", "mdtraj/formats/netcdf.py", "        self._validate_open()\n        self._handle.sync()", "        self._validate_open()", "C19-R6", "NetCDFTrajectoryFile.flush")
+V("C19", "reporter-no-flush", "mdtraj/reporters/basereporter.py", "            self._traj_file.flush()", "            pass", "C19-R6", "_BaseReporter.report")
+V("C19", "hdf5-append-before-check-again", "mdtraj/formats/hdf5.py",
+  "                    to_append.append((self._get_node(where=\"/\", name=name), contents))", "                    self._get_node(where=\"/\", name=name).append(contents)",
+  "C19-R1", "HDF5TrajectoryFile.write")
+V("C19", "nc-missing-check-after-deposit", "mdtraj/formats/netcdf.py",
+  """        # update the frame index pointers. this should be done at the""",
+  """        if time is None and "time" in self._handle.variables:
+            raise ValueError("time missing")
+        # update the frame index pointers. this should be done at the""", "C19-R1", "NetCDFTrajectoryFile.write")
+V("C19", "mdcrd-atomcount-check-removed", "mdtraj/formats/mdcrd.py",
+  """        elif self._n_atoms != xyz.shape[1]:
+            raise ValueError(
+                "This mdcrd file has %d atoms, but you're now trying to write %d atoms" % (self._n_atoms, xyz.shape[1]),
+            )
+""", "", "C19-R2", "MDCRDTrajectoryFile.write")
+V("C19", "twin-merged-checks", "mdtraj/formats/dcd/dcd.pyx",
+  """            if cell_lengths is None and self.with_unitcell:
+                raise ValueError("The file that you're saving to expects each frame "
+                    "to contain unitcell information, but you did not supply it.")
+            if cell_lengths is not None and not self.with_unitcell:
+                raise ValueError("The file that you're saving to was created without "
+                    "unitcell information.")
+""", """            if (cell_lengths is None) != (not self.with_unitcell):
+                raise ValueError("unit cell information must be given in all writes or in none")
+""", None)
